@@ -106,7 +106,8 @@ Definition spec_esd : dtree :=
   Ite (BC CBackMainPhase)
       (Ite (BC CBackTerminated) (Leaf [EAct AForwardTerminated])
            (Ite (BNot (BC CKeepAliveBackend)) (Leaf [EAct ACloseDelimited])
-                (Leaf [EAct AForwardUnterminated])))
+                (Ite (BNot (BC CBackConsumed)) (Leaf [EAct (ASendDefault 502)])
+                     (Leaf [EAct AForwardUnterminated]))))
       (Ite (BC CFrontConsumed) (Leaf [EAct (ASendDefault 502)]) (Leaf [EAct AReconnect])).
 
 (** documented status per cause (doc: 404 no route, 401 denied, 421 wrong
